@@ -111,6 +111,10 @@ where
                 }
             }
         }
+        // Particles on top of each other have no finite energy, such a state has no score.
+        if !sum.is_finite() {
+            return None;
+        }
         // We want to minimize the potential energy, so the score we want to maximize is the
         // negation of the potential energy.
         Some(-sum / self.total_shapes() as f64)
